@@ -158,9 +158,13 @@ impl ExchangeId {
 
             match select3(&mut recv, &mut session_removed, &mut timeout).await {
                 Either3::First(mut packet) => {
-                    packet.clear_on_drop(true);
-
+                    // The predicate above also lets us through when our session is gone
+                    // (`unwrap_or(true)`), so that we notice and bail out. The message waiting
+                    // in the RX slot is then NOT ours: it must stay in place for its owner (or
+                    // for the responders to accept), so check first and only then take it.
                     self.check_no_pending_retrans(matter)?;
+
+                    packet.clear_on_drop(true);
 
                     break Ok(RxMessage(packet));
                 }
